@@ -19,6 +19,7 @@ struct Incarnation
     int entry = 0;        // 0: start(nullptr), 1: start(f) f returns ret, 2: init(f) history driven from inside pika_main
     int ret = 0;
     int finalizer = 0;    // 0 main thread, 1 inside pika_main (entry 1/2), 2 from a task, 3 external OS thread
+    int f_work = 0;       // entry 1: how long the entry function keeps working (yielding) after its (optional) finalize() before it returns: 0 / 0.2 / 1 / 5 ms
     std::vector<Step> steps;
 };
 struct Case
@@ -63,6 +64,7 @@ static Case decode(tape_t const& tape)
             if (t.chance(1, 2)) in.steps.push_back({ST_WAIT, -1});
             if (in.entry != 2 && t.chance(1, 5)) in.steps.push_back({ST_SUSPEND_RESUME, -1, std::min(t.pick({1, 1, 3, 20, 200}), in.cfg.workers <= 4 ? 200 : 30)});    // (a cycle over many workers is slow: bounded so that the case stays well below its watchdog)
         }
+        in.f_work = t.pick({0, 0, 1, 2, 3});
         c.inc.push_back(std::move(in));
     }
     return c;
@@ -79,7 +81,7 @@ static std::string describe(tape_t const& tape)
         static char const* const en[] = {"start(nullptr)", "start(f)", "init(f): history runs inside pika_main"};
         static char const* const fn[] = {"main thread", "pika_main", "task", "external OS thread"};
         static char const* const sn[] = {"submit", "wait", "suspend/resume", "burst||wait"};
-        os << (k ? ", " : "") << "{\"entry\": \"" << en[in.entry] << "\", \"ret\": " << in.ret << ", \"finalize_from\": \"" << fn[in.finalizer]
+        os << (k ? ", " : "") << "{\"entry\": \"" << en[in.entry] << "\", \"ret\": " << in.ret << ", \"entry_works_after_finalize_code\": " << in.f_work << ", \"finalize_from\": \"" << fn[in.finalizer]
            << "\", \"steps\": [";
         for (std::size_t s = 0; s < in.steps.size(); ++s)
             os << (s ? ", " : "") << "\"" << sn[in.steps[s].kind] << (in.steps[s].wave >= 0 ? " wave " + std::to_string(in.steps[s].wave) : std::string()) << (in.steps[s].reps > 1 ? " x" + std::to_string(in.steps[s].reps) : std::string()) << "\"";
@@ -255,6 +257,10 @@ static Outcome run(tape_t const& tape)
                 auto f = [&](int, char**) -> int {
                     entry_ran.fetch_add(1);
                     if (in.finalizer == 1) pika::finalize();
+                    // the result of the entry function is whatever it returns in the end, however long after finalize()
+                    static const long long work_ns[] = {0, 200000, 1000000, 5000000};
+                    auto t_end = std::chrono::steady_clock::now() + std::chrono::nanoseconds(work_ns[in.f_work]);
+                    while (std::chrono::steady_clock::now() < t_end) pika::this_thread::yield();
                     return in.ret;
                 };
                 pika::start(std::function<int(int, char**)>(f), argc, ah.p.data());
